@@ -309,6 +309,83 @@ def emnist_ids(case):
   return {'evals': evals, 'nontrivial': lo <= 2100 < hi or lo <= 2599 < hi, 'outcome': [lo, hi]}
 
 
+def load_data(case):
+  """The public loaders over a pre-populated cache directory (no network): train and test splits hold the SAME client ids
+  with DIFFERENT content; every client of both splits, read in either order and interleaved, is preprocessed from its own
+  split's examples."""
+  import os
+  import shutil
+  import tempfile
+  from fedjax.core import sqlite_federated_data as sq
+  which = case['which']
+  tmp = tempfile.mkdtemp(prefix='c20_ld_')
+  evals = 0
+  try:
+    ids = [b'f2100_00', b'f2599_11', b'f0000_05', b'f3599_99'] if which == 'emnist' else [b'THE_KING', b'A_LORD', b'', b'x\x00']
+    raw = {}
+    for split in ('train', 'test'):
+      tab = {}
+      for i, cid in enumerate(ids):
+        n = (i + (split == 'test')) % 3 + (1 if which == 'emnist' else 0)
+        if which == 'shakespeare':
+          arr = np.empty(n, dtype=object)
+          for j in range(n):
+            arr[j] = (b'tr' if split == 'train' else b'TE!') + bytes([97 + i, 98 + j]) * (j + 1)
+          tab[cid] = {'snippets': arr}
+        else:
+          px = np.zeros((n, 28, 28), np.float32)
+          px[:, i, :] = 0.25 if split == 'train' else 0.75
+          tab[cid] = {'pixels': px, 'label': (np.arange(n, dtype=np.int32) + i + (10 if split == 'test' else 0))}
+      raw[split] = tab
+      name = 'shakespeare_%s.sqlite' % split if which == 'shakespeare' else 'federated_emnist_%s%s.sqlite' % ('digitsonly_' if case.get('digits') else '', split)
+      with sq.SQLiteFederatedDataBuilder(os.path.join(tmp, name)) as b:
+        b.add_many(list(tab.items()))
+    if which == 'shakespeare':
+      from fedjax.datasets import shakespeare as ds
+      train, test = ds.load_data(sequence_length=case.get('seq', 5), cache_dir=tmp)
+
+      def check(split, cid, ex):
+        snippets = list(raw[split][cid]['snippets'])
+        stream, _, _ = ref_stream(snippets)
+        n = max(len(stream) - 1, 0)
+        fx, fy = np.asarray(ex['x']).reshape(-1), np.asarray(ex['y']).reshape(-1)
+        require(fx[:n].tolist() == stream[:-1] and fy[:n].tolist() == stream[1:] and not fx[n:].any(),
+                'load_data(): client %r of the %s split does not hold the label stream of its own %s snippets' % (cid, split, split),
+                [stream[:-1]], [fx.tolist()], case=dict(case, client=cid.hex(), split=split))
+    else:
+      from fedjax.datasets import emnist as ds
+      train, test = ds.load_data(only_digits=bool(case.get('digits')), cache_dir=tmp)
+
+      def check(split, cid, ex):
+        want = raw[split][cid]
+        dom = 0 if 2100 <= int(cid[1:5]) <= 2599 else 1
+        ok = (np.asarray(ex['y']).tolist() == want['label'].tolist() and np.asarray(ex['x']).shape == (len(want['label']), 28, 28, 1) and
+              np.allclose(np.asarray(ex['x'])[..., 0], 1 - want['pixels']) and np.asarray(ex['domain_id']).tolist() == [dom] * len(want['label']))
+        require(ok, 'load_data(): client %r of the %s split is not the preprocessed form of its own %s examples' % (cid, split, split),
+                want['label'].tolist(), np.asarray(ex['y']).tolist(), case=dict(case, client=cid.hex(), split=split))
+    fds = {'train': train, 'test': test}
+    orders = {'train_first': [('train', c) for c in ids] + [('test', c) for c in ids],
+              'test_first': [('test', c) for c in ids] + [('train', c) for c in ids],
+              'interleaved': [(s_, c) for c in ids for s_ in ('test', 'train', 'test')]}
+    for cid_split in orders[case['order']]:
+      split, cid = cid_split
+      check(split, cid, fds[split].get_client(cid).all_examples())
+      evals += 1
+    for split in (('test', 'train') if case['order'] == 'test_first' else ('train', 'test')):
+      got = {cid: d.all_examples() for cid, d in fds[split].clients()}
+      require(sorted(got) == sorted(ids), 'load_data(): client ids of the %s split' % split, case=case)
+      for cid in ids:
+        check(split, cid, got[cid])
+        evals += 1
+    for fd in fds.values():
+      c = getattr(fd, '_connection', None)
+      if c is not None:
+        c.close()
+  finally:
+    shutil.rmtree(tmp, ignore_errors=True)
+  return {'evals': evals, 'nontrivial': True, 'outcome': [which, case['order']]}
+
+
 def _model(name):
   if ('m', name) in _CACHE:
     return _CACHE[('m', name)]
@@ -424,7 +501,7 @@ def so_tokenizer_orders(case):
   return {'evals': evals, 'nontrivial': len(lengths) > 1, 'outcome': lengths}
 
 
-SUBS = {'so_tokenizer_orders': so_tokenizer_orders, 'shakespeare_tok': shakespeare_tok, 'lm_crosscheck': lm_crosscheck, 'cifar': cifar, 'cifar_invalid': cifar_invalid,
+SUBS = {'load_data': load_data, 'so_tokenizer_orders': so_tokenizer_orders, 'shakespeare_tok': shakespeare_tok, 'lm_crosscheck': lm_crosscheck, 'cifar': cifar, 'cifar_invalid': cifar_invalid,
         'emnist_ids': emnist_ids, 'row_independence': row_independence}
 TIMEOUTS = {k: 1500 for k in SUBS}
 
@@ -443,6 +520,8 @@ def plan(ctx):
               '2 suffixes; row independence: 8 packaged models x all batches of <=3 rows' % (3 if th else 2, 3 if th else 2))
   ctx.assumptions += ['tf.image.per_image_standardization / resize_with_crop_or_pad are the oracle for CIFAR-100',
                       'packaged LSTM models are instantiated with small hidden sizes (metrics do not depend on them)']
+  ctx.pmap('load_data', [{'which': w, 'order': o, **kw} for w, kws in (('shakespeare', ({'seq': 5}, {'seq': 3})), ('emnist', ({}, {'digits': True})))
+                         for kw in kws for o in ('train_first', 'test_first', 'interleaved')], chunk=3)
   ml = 3 if th else 2
   tk = [{'num_snippets': k, 'seq': s, 'max_len': ml if k < 3 else 1} for k in ((0, 1, 2, 3) if th else (0, 1, 2))
         for s in range(2, 7)]
